@@ -17,6 +17,7 @@
 package main
 
 import (
+	"encoding/binary"
 	"flag"
 	"fmt"
 	"math/big"
@@ -76,6 +77,43 @@ func runFn1(p, s int, v *big.Int, tag string) {
 			if d2, err := asetypes.NewDecimalString(p, s, t1); err == nil {
 				rt = orig.Cmp(*d2) && d2.Cmp(*orig)
 			}
+		}
+		return sx.L{sx.Text(t1), sx.Text(t2), bigT(after), sx.Bool(rt)}
+	})
+}
+
+// fn 6: the same as fn 1 for the decimal as it comes back from the wire (asetypes/bytes.go, asetypes/goValue.go: DECN /
+// NUMN; precision and scale are set by the receiver, as tds field data does)
+func runFn6(p, s int, v *big.Int, tag string) {
+	in := sx.L{sx.I(int64(p)), sx.I(int64(s)), bigT(v)}
+	guard(6, in, tag, func() sx.T {
+		d0, err := mkDec(p, s, v)
+		if err != nil {
+			return sx.L{sx.I(2)}
+		}
+		typ := asetypes.DECN
+		if rng.Bool() {
+			typ = asetypes.NUMN
+		}
+		bs, err := typ.Bytes(binary.BigEndian, d0, int64(d0.ByteSize()))
+		if err != nil {
+			return sx.L{sx.I(3)}
+		}
+		gv, err := typ.GoValue(binary.BigEndian, bs)
+		if err != nil {
+			return sx.L{sx.I(3)}
+		}
+		d, ok := gv.(*asetypes.Decimal)
+		if !ok {
+			return sx.L{sx.I(3)}
+		}
+		d.Precision, d.Scale = p, s
+		t1 := d.String()
+		t2 := d.String()
+		after := d.Int()
+		rt := false
+		if d2, err := asetypes.NewDecimalString(p, s, t1); err == nil {
+			rt = d0.Cmp(*d2) && d2.Cmp(*d0)
 		}
 		return sx.L{sx.Text(t1), sx.Text(t2), bigT(after), sx.Bool(rt)}
 	})
@@ -691,6 +729,28 @@ func main() {
 		both(pow10[p], "str-overlong")
 		both(new(big.Int).Add(pow10[p], big.NewInt(7)), "str-overlong")
 		both(new(big.Int).Sub(pow10[p+2], one), "str-overlong")
+	}
+	// ---- fn 6: through the wire form and back: machine-word boundaries of the magnitude, powers of ten, random values
+	for _, q := range pairs {
+		if q.p < 1 || !(thorough || q.s == 0 || q.s == q.p || q.p >= 18 && q.s%5 == 0 || rng.Intn(10) == 0) {
+			continue
+		}
+		var vs []*big.Int
+		for _, sh := range []uint{7, 8, 15, 16, 31, 32, 63, 64, 127} {
+			b := new(big.Int).Lsh(one, sh)
+			vs = append(vs, new(big.Int).Sub(b, one), b, new(big.Int).Add(b, one))
+		}
+		vs = append(vs, big.NewInt(0), one, new(big.Int).Sub(pow10[q.p], one), pow10[q.p-1], randInt(q.p), randInt(rng.Range(1, q.p)))
+		if q.p >= 20 {
+			vs = append(vs, new(big.Int).Sub(pow10[19], one), pow10[19])
+		}
+		for _, v := range vs {
+			if v.Cmp(pow10[q.p]) >= 0 {
+				continue
+			}
+			runFn6(q.p, q.s, v, fmt.Sprintf("wire-value;p=%d;s=%d", q.p, q.s))
+			runFn6(q.p, q.s, new(big.Int).Neg(v), fmt.Sprintf("wire-value;p=%d;s=%d", q.p, q.s))
+		}
 	}
 	// ---- fn 1: random values of every digit length
 	reps := 1
